@@ -12,7 +12,7 @@ import concurrent.futures as cf
 import fcntl
 import hashlib
 import json
-import os
+import os, queue, threading
 import re
 import shutil
 import subprocess
@@ -150,11 +150,7 @@ def run_chunk(cfg, prop, tier, seed, a, b, tmp, want_samples):
         if want_samples and cur == a:
             cmd += ["--samples", "3"]
         with open(errf, "w") as ef:
-            try:
-                p = subprocess.run(cmd, stdout=subprocess.PIPE, stderr=ef, text=True, env=ENV, errors="replace", timeout=3600)
-            except subprocess.TimeoutExpired:
-                log("INFRA-ERROR engine process did not finish within the wall-clock backstop (chunk %s)" % tag)
-                os._exit(2)
+            p = run_watched(cmd, ef, pending)
         done = False
         last = cur - 1
         for line in p.stdout.splitlines():
@@ -182,16 +178,59 @@ def run_chunk(cfg, prop, tier, seed, a, b, tmp, want_samples):
     return runs, crashes
 
 
+class Finished:
+    def __init__(self, rc, out):
+        self.returncode, self.stdout = rc, out
+
+
+def stall_limit(pending):
+    """seconds without a result line after which an engine process counts as hung: the in-process watchdogs (CPU 30 s,
+    wall 300 s; 900 / 9000 s for exhaustive sweeps and the 4 GiB block) come first; this one also ends a process
+    whose signal handlers cannot run (a thread blocked inside the sanitizer runtime)"""
+    try:
+        with open(pending) as f:
+            t = f.read()
+    except OSError:
+        return 420
+    return 9600 if re.search(r"^op (sweep|huge)", t, re.M) else 420
+
+
+def run_watched(cmd, ef, pending):
+    """runs cmd, collecting stdout; kills it when no line arrives within stall_limit() and reports that as a HANG verdict"""
+    proc = subprocess.Popen(cmd, stdout=subprocess.PIPE, stderr=ef, text=True, env=ENV, errors="replace")
+    q = queue.Queue()
+
+    def pump():
+        for line in proc.stdout:
+            q.put(line)
+        q.put(None)
+    threading.Thread(target=pump, daemon=True).start()
+    out = []
+    while True:
+        try:
+            line = q.get(timeout=stall_limit(pending))
+        except queue.Empty:
+            proc.kill()
+            proc.wait()
+            out.append("SCHED-VERDICT HANG no result within the stall limit and the in-process watchdog did not fire (process killed)\n")
+            return Finished(80, "".join(out))
+        if line is None:
+            break
+        out.append(line)
+    proc.wait()
+    return Finished(proc.returncode, "".join(out))
+
+
 def replay_once(variant, plan_text, tmp, tag):
     """returns dict(viol, class, site, fp, detail)"""
     pf = os.path.join(tmp, "replay.%s.plan" % tag)
     with open(pf, "w") as f:
         f.write(plan_text)
-    try:
-        p = subprocess.run([sim_bin(variant), "replay", pf], stdout=subprocess.PIPE, stderr=subprocess.PIPE,
-                           text=True, env=ENV, errors="replace", timeout=1800)
-    except subprocess.TimeoutExpired:
-        return dict(viol=False, fp="", infra=True, detail="replay did not finish within the wall-clock backstop")
+    errp = pf + ".err"
+    with open(errp, "w") as ef:
+        p = run_watched([sim_bin(variant), "replay", pf], ef, pf)
+    with open(errp, errors="replace") as ef:
+        p.stderr = ef.read()
     for line in p.stdout.splitlines():
         if line.startswith("RUN "):
             r = parse_run(line)
